@@ -201,7 +201,12 @@ class _Out:
         (property, disturbed reading) and kind of value ('value' / 'None'). 'out-of-domain(xml-only)': the
         rejected assignment changed the part XML but no catalogued reading of the object."""
         if rule == "reject-mutated":
-            label = "out-of-domain" if rank == 0 else "out-of-domain(xml-only)"
+            if rank != 0:
+                # the rejected assignment changed the part XML but no reading of the object: the C09 statement
+                # only speaks about readings, so this is counted, not reported (C03/C11 judge the XML)
+                self.xml_only = getattr(self, "xml_only", 0) + 1
+                return
+            label = "out-of-domain"
         elif rule.startswith("interferes("):
             label = "None" if label == "None" else "value"
         base = "C09|%s|%s.%s|%s%s" % (rule, cname, pname, label, extra)
